@@ -211,7 +211,7 @@ pub fn supervise(prop: &str, tier: &str, args: &[String], families: &[Family]) -
         };
         let Some(idx) = last else { continue };
         let bytes = (fam.gen)(idx);
-        let dir = format!("{}/replays/{prop}", super::VERIF_DIR);
+        let dir = format!("{}/replays/{prop}", super::out_dir());
         let _ = std::fs::create_dir_all(&dir);
         let path = format!("{dir}/{class}-{fi}-{idx}.json");
         let body = json!({"property": prop, "class": class, "summary": format!("family '{}' case {idx}: {why}", fam.name),
@@ -223,7 +223,7 @@ pub fn supervise(prop: &str, tier: &str, args: &[String], families: &[Family]) -
                 "traces_validated_against_impl": idx, "samples": [{"culprit_hex": hex(&bytes[..bytes.len().min(256)])}],
                 "rule": "run aborted: the supervised child died; culprit found by per-case re-execution", "exhaustive": false},
             "wall_s": 0.0, "violations": 1});
-        let _ = std::fs::write(format!("{}/evidence/{prop}.json", super::VERIF_DIR), serde_json::to_string_pretty(&ev).unwrap());
+        let _ = std::fs::write(format!("{}/evidence/{prop}.json", super::out_dir()), serde_json::to_string_pretty(&ev).unwrap());
         return 1;
     }
     machinery_error("supervised child died but no single case reproduces it")
